@@ -336,6 +336,8 @@ CheckDec17(e) ==
        jsonbits |-> OkOnly1("jsonbits", LAMBDA v : JsonDenotes(x, v, n)),
        bincode |-> OkOnly1("bincode", LAMBDA v : /\ Len(x) >= 8 + nb /\ LEVal(SubSeq(x, 1, 8)) = FromNat(nb)
                                                   /\ v = BEVal(SubSeq(x, 9, 8 + nb)) /\ Lt2(v, n)),
+       bincodebits |-> OkOnly1("bincodebits", LAMBDA v : /\ Len(x) >= 8 + nb /\ LEVal(SubSeq(x, 1, 8)) = FromNat(nb)
+                                                          /\ v = BEVal(SubSeq(x, 9, 8 + nb)) /\ Lt2(v, n)),
        \* the serde visitor's integer and byte-string entry points: a number handed over by the data format denotes itself; a
        \* byte string is the big-endian binary form of exactly BYTES bytes (what the binary serializer writes)
        serde_u64 |-> Len(x) < 8 \/ OkOnly1("serde_u64", LAMBDA v : v = LEVal(SubSeq(x, 1, 8)) /\ Lt2(v, n)),
